@@ -204,6 +204,8 @@ Proof.
   - unfold op_shift. apply K_set_links.
   - unfold lst_shift. apply K_aon. unfold lst_shift_seq. apply K_seq. intros s' c. unfold op_shift. apply K_set_links.
   - unfold lst_set_parent. apply K_aon. unfold lst_set_parent_seq. apply K_seq. intros s' c. apply K_set_parent.
+  - unfold lst_set_children. apply K_aon. unfold lst_set_children_seq. apply K_seq. intros s' c. apply K_set_children.
+  - unfold lst_set_links. apply K_aon. unfold lst_set_links_seq. apply K_seq. intros s' c. apply K_set_links.
   - unfold wbs_remove. destruct t; [apply K_wbs_remove_task | apply K_refl].
   - unfold wbs_remove_all. destruct (wbs_tasks s w); try apply K_refl. apply K_seq. intros s' c. apply K_wbs_remove_task.
   - unfold set_est. destruct e as [v|]; [destruct (v <? 0)%Z; [apply K_refl|]|];
